@@ -76,6 +76,23 @@ def check_program(L: harness.Loaded, prog: Dict[str, Any], part: Part) -> None:
             continue
         if consumed != len(pdu):
             part.violation(f"C01/{tag}/pdu-not-consumed", case, f"{show(values)} -> {pdu.hex()}: decoder consumed {consumed} of {len(pdu)} bytes")
+    # responses through their service: encode_positive_response / encode_negative_response are the response's encode
+    if prog.get("kind", "REQUEST") in ("POS-RESPONSE", "NEG-RESPONSE") and prog["assign"]:
+        svc = getattr(L.layer.services, "svc_" + prog["pid"], None)
+        rq = prog.get("request")
+        if svc is not None and rq is not None:
+            for values in prog["assign"][:3]:
+                pdu, exc, _ = harness.odx_encode(msg, values, rq)
+                fn = svc.encode_positive_response if prog["kind"] == "POS-RESPONSE" else svc.encode_negative_response
+                try:
+                    pdu2 = bytes(fn(bytes(rq), 0, **values))
+                    exc2 = None
+                except Exception as e2:  # noqa
+                    pdu2, exc2 = None, e2
+                part.count("via_service_response")
+                if (exc is None) != (exc2 is None) or (exc is None and pdu2 != pdu):
+                    part.violation(f"C01/{tag}/service-encodes-response-differently", {"program": prog_case(prog), "values": jval(values)},
+                                   f"service: {pdu2.hex() if pdu2 is not None else type(exc2).__name__} vs Response.encode: {pdu.hex() if pdu is not None else type(exc).__name__}")
     # the same through the layer: DiagService.encode_request / DiagLayer.decode (first assignment per program)
     if prog.get("kind", "REQUEST") == "REQUEST" and prog["assign"] and prog.get("via_layer", True):
         values = prog["assign"][0]
@@ -90,6 +107,13 @@ def check_program(L: harness.Loaded, prog: Dict[str, Any], part: Part) -> None:
             if exc is None and pdu2 != pdu:
                 part.violation(f"C01/{tag}/service-encodes-differently", {"program": prog_case(prog), "values": jval(values)},
                                f"encode_request {pdu2.hex()} vs Request.encode {pdu.hex()}")
+            try:  # calling the service is encoding its request
+                pdu3 = bytes(svc(**values))
+            except Exception:
+                pdu3 = None
+            if exc is None and pdu3 != pdu:
+                part.violation(f"C01/{tag}/service-call-encodes-differently", {"program": prog_case(prog), "values": jval(values)},
+                               f"service(...) {None if pdu3 is None else pdu3.hex()} vs Request.encode {pdu.hex()}")
             # DiagLayer.decode of the service's own request (needs a constant prefix for the dispatch)
             if exc is None and prog["params"] and prog["params"][0]["t"] == "CODED-CONST" and prog["tags"][0] == "prog" and \
                     prog["params"][0].get("byte") in (None, 0):
